@@ -731,7 +731,7 @@ class ReuseStream(Stream):
     """sequence of distribute_power calls on ONE list of InvBatPair mutated in place between the calls"""
     name = "reuse"
     coq_header = REUSE_HEADER
-    n_quick = 250
+    n_quick = 180
     n_thorough = 6000
     CLAUSES: tuple = ()
     FINDING_OF = staticmethod(lambda case, obs, clause, gi: None)
